@@ -33,7 +33,7 @@ func DirectionCombination(p *core.Program, r *core.Report, rule string) {
 				return true
 			}
 			fn := core.Callee(info, call)
-			if fn == nil || fn.Name() != "allAllowedXgressConnections" || len(call.Args) != 3 {
+			if fn == nil || core.RefName(fn) != "allAllowedXgressConnections" || len(call.Args) != 3 {
 				return true
 			}
 			if v, ok := core.ConstString(info, call.Args[2]); ok {
@@ -71,8 +71,8 @@ func DirectionCombination(p *core.Program, r *core.Report, rule string) {
 				return true
 			}
 			found = true
-			r.Check(fn.Name() == "Intersection", rule, fd.Key()+": egress and ingress results are combined by Intersection", p.Pos(call.Pos()),
-				"resolved callee (*ConnectionSet).Intersection", "the two direction results are combined by "+fn.Name()+" instead of Intersection: a connection must be allowed by egress from the source AND ingress to the destination")
+			r.Check(core.RefName(fn) == "Intersection", rule, fd.Key()+": egress and ingress results are combined by Intersection", p.Pos(call.Pos()),
+				"resolved callee (*ConnectionSet).Intersection", "the two direction results are combined by "+core.RefName(fn)+" instead of Intersection: a connection must be allowed by egress from the source AND ingress to the destination")
 			// and the combined set is what is returned
 			return true
 		})
@@ -102,7 +102,7 @@ func DirectionCombination(p *core.Program, r *core.Report, rule string) {
 				return true
 			}
 			fn := core.Callee(info, call)
-			if fn == nil || fn.Name() != "allowedXgressConnection" || len(call.Args) < 3 {
+			if fn == nil || core.RefName(fn) != "allowedXgressConnection" || len(call.Args) < 3 {
 				return true
 			}
 			if v, ok := core.ConstString(info, call.Args[2]); ok {
@@ -178,7 +178,7 @@ func directionSite(p *core.Program, r *core.Report, rule string, entry *core.Fun
 		found := false
 		ast.Inspect(g.Decl.Body, func(n ast.Node) bool {
 			if c, ok := n.(*ast.CallExpr); ok {
-				if fn := core.Callee(g.Pkg.TypesInfo, c); fn != nil && fn.Name() == dirFn && p.IsModuleFunc(fn) {
+				if fn := core.Callee(g.Pkg.TypesInfo, c); fn != nil && core.RefName(fn) == dirFn && p.IsModuleFunc(fn) {
 					found = true
 				}
 			}
@@ -231,7 +231,7 @@ func directionSite(p *core.Program, r *core.Report, rule string, entry *core.Fun
 		}
 	}
 	w.WalkBody(entry.Decl.Body, nil)
-	r.Check(bad == "", rule, entry.Key()+": hands back the verdict of "+site.Obj.Name()+" unchanged", p.Pos(assign.Pos()), "", "after delegating the evaluation of both directions the entry returns something else: "+bad)
+	r.Check(bad == "", rule, entry.Key()+": hands back the verdict of "+core.RefName(site.Obj)+" unchanged", p.Pos(assign.Pos()), "", "after delegating the evaluation of both directions the entry returns something else: "+bad)
 	return site
 }
 
@@ -248,7 +248,7 @@ func IPMembershipPolarity(p *core.Program, r *core.Report, rule string) {
 		e = ast.Unparen(e)
 		if c, ok := e.(*ast.CallExpr); ok {
 			if fn := core.Callee(info, c); fn != nil {
-				return fn.Name()
+				return core.RefName(fn)
 			}
 		}
 		if id, ok := e.(*ast.Ident); ok {
@@ -259,7 +259,7 @@ func IPMembershipPolarity(p *core.Program, r *core.Report, rule string) {
 					if lid, ok := as.Lhs[0].(*ast.Ident); ok && info.ObjectOf(lid) == o {
 						if c, ok := ast.Unparen(as.Rhs[0]).(*ast.CallExpr); ok {
 							if fn := core.Callee(info, c); fn != nil {
-								name = fn.Name()
+								name = core.RefName(fn)
 							}
 						}
 					}
@@ -287,10 +287,10 @@ func IPMembershipPolarity(p *core.Program, r *core.Report, rule string) {
 		ro, ao := originOf(se.X), originOf(call.Args[0])
 		if (ro == "GetPeerIPBlock" && ao == "parseNetpolCIDR") || (ro == "parseNetpolCIDR" && ao == "GetPeerIPBlock") {
 			found = true
-			ok := fn.Name() == "IsSubset" && ro == "GetPeerIPBlock"
+			ok := core.RefName(fn) == "IsSubset" && ro == "GetPeerIPBlock"
 			r.Check(ok, rule, fd.Key()+": IP peer is matched by peerBlock.IsSubset(ruleBlock)", p.Pos(call.Pos()),
 				"receiver is the peer's block, argument the rule's CIDR-minus-excepts block, callee netset IsSubset",
-				fmt.Sprintf("the IP match is %s.%s(%s): an external peer matches a rule iff its whole range lies inside the rule's block (overlap or the reverse containment would report connectivity for addresses the rule excludes)", ro, fn.Name(), ao))
+				fmt.Sprintf("the IP match is %s.%s(%s): an external peer matches a rule iff its whole range lies inside the rule's block (overlap or the reverse containment would report connectivity for addresses the rule excludes)", ro, core.RefName(fn), ao))
 		}
 		return true
 	})
@@ -336,7 +336,7 @@ func PolicyTypesTable(p *core.Program, r *core.Report, rule string) {
 	inLoopOverTypes = func() (bool, *ast.RangeStmt) {
 		for _, l := range w.Loops {
 			if rs, ok := l.(*ast.RangeStmt); ok {
-				if f := core.FieldOf(info, rs.X); f != nil && f.Name() == "PolicyTypes" {
+				if f := core.FieldOf(info, rs.X); f != nil && core.RefName(f) == "PolicyTypes" {
 					return true, rs
 				}
 			}
@@ -383,10 +383,10 @@ func PolicyTypesTable(p *core.Program, r *core.Report, rule string) {
 		}
 		// the membership test written as a library call: slices.Contains(spec.policyTypes, direction)
 		if c, isC := res.(*ast.CallExpr); isC && len(c.Args) == 2 {
-			if fn := core.Callee(info, c); fn != nil && fn.Pkg() != nil && fn.Pkg().Path() == "slices" && fn.Name() == "Contains" {
+			if fn := core.Callee(info, c); fn != nil && fn.Pkg() != nil && fn.Pkg().Path() == "slices" && core.RefName(fn) == "Contains" {
 				fl := core.FieldOf(info, c.Args[0])
 				id, isID := ast.Unparen(c.Args[1]).(*ast.Ident)
-				if fl != nil && fl.Name() == "PolicyTypes" && isID && info.ObjectOf(id) == dir {
+				if fl != nil && core.RefName(fl) == "PolicyTypes" && isID && info.ObjectOf(id) == dir {
 					rows["member"], rows["notmember"] = true, true
 					r.Check(haveTE && facts.Entails(bg, facts.Not{X: te}), rule, fd.Key()+": explicit policyTypes -> listed directions only (library membership test)", pos, "slices.Contains(spec.policyTypes, direction) under non-empty spec.policyTypes", "the membership answer is given although spec.policyTypes may be unset: the defaulting rules do not apply")
 					return
@@ -397,7 +397,7 @@ func PolicyTypesTable(p *core.Program, r *core.Report, rule string) {
 		mentionsEgress := false
 		ast.Inspect(res, func(n ast.Node) bool {
 			if se, ok := n.(*ast.SelectorExpr); ok {
-				if fl := core.FieldOf(info, se); fl != nil && fl.Name() == "Egress" {
+				if fl := core.FieldOf(info, se); fl != nil && core.RefName(fl) == "Egress" {
 					mentionsEgress = true
 				}
 			}
@@ -535,7 +535,7 @@ func PartitionCompleteness(p *core.Program, r *core.Report, rule string) {
 	var disjoint *ast.CallExpr
 	ast.Inspect(fd.Decl.Body, func(n ast.Node) bool {
 		if c, ok := n.(*ast.CallExpr); ok {
-			if fn := core.Callee(info, c); fn != nil && fn.Name() == "DisjointIPBlocks" {
+			if fn := core.Callee(info, c); fn != nil && core.RefName(fn) == "DisjointIPBlocks" {
 				disjoint = c
 			}
 		}
@@ -550,7 +550,7 @@ func PartitionCompleteness(p *core.Program, r *core.Report, rule string) {
 	ast.Inspect(fd.Decl.Body, func(n ast.Node) bool {
 		if as, ok := n.(*ast.AssignStmt); ok && len(as.Rhs) == 1 {
 			if c, ok := ast.Unparen(as.Rhs[0]).(*ast.CallExpr); ok {
-				if fn := core.Callee(info, c); fn != nil && fn.Name() == "GetCidrAll" {
+				if fn := core.Callee(info, c); fn != nil && core.RefName(fn) == "GetCidrAll" {
 					if id, ok := as.Lhs[0].(*ast.Ident); ok {
 						allVar = info.ObjectOf(id)
 					}
@@ -565,7 +565,7 @@ func PartitionCompleteness(p *core.Program, r *core.Report, rule string) {
 				hasAll = true
 			}
 			if c, ok := n.(*ast.CallExpr); ok {
-				if fn := core.Callee(info, c); fn != nil && fn.Name() == "GetCidrAll" {
+				if fn := core.Callee(info, c); fn != nil && core.RefName(fn) == "GetCidrAll" {
 					hasAll = true
 				}
 			}
@@ -627,10 +627,10 @@ func PartitionCompleteness(p *core.Program, r *core.Report, rule string) {
 			if fn := core.Callee(pinfo, c); fn != nil {
 				for _, a := range c.Args {
 					if id, ok := ast.Unparen(a).(*ast.Ident); ok {
-						if fn.Name() == "IPBlockFromCidr" && pinfo.ObjectOf(id) == sigp.Params().At(0) {
+						if core.RefName(fn) == "IPBlockFromCidr" && pinfo.ObjectOf(id) == sigp.Params().At(0) {
 							usesCidr = true
 						}
-						if fn.Name() == "ExceptCidrs" && pinfo.ObjectOf(id) == sigp.Params().At(1) {
+						if core.RefName(fn) == "ExceptCidrs" && pinfo.ObjectOf(id) == sigp.Params().At(1) {
 							usesExcept = true
 						}
 					}
